@@ -344,6 +344,13 @@ func runC03(c *Ctx) {
 					}
 				}
 			}
+			if ok {
+				// every welcome gets its CONNECTED: the dispatch (or its registration as a deferred call) lies on every
+				// path through the handler - no once-guard or counter can swallow the event of a later connection
+				if all, bad := AllPathsFromEntryPass(fn, func(x ssa.Instruction) bool { return x == e.Site }); !all {
+					ok, why = false, "the return at "+c.InstrPos(bad)+" is reached without CONNECTED having been dispatched"
+				}
+			}
 			if ok && kindName(e.Site) == "defer" {
 				// deferred calls run last-in-first-out: a deferred state update registered BEFORE the deferred dispatch
 				// runs AFTER it. Every other defer of the handler that (transitively) touches the tracker or Config.Me
